@@ -429,3 +429,155 @@ Proof.
     + exact (profile_keys_input c g I P C ID ce1 HT HP H1).
     + exact (profile_keys_input c g I P C ID ce2 HT HP H2).
 Qed.
+
+(** ** A2. an invariant of the statements through the shexing stage:
+    properties are plain IRIs, every statement has a type, every type is a
+    value type of the domain (a plain IRI for the typing property), every
+    comment is a statement comment whose token is the rendering of such a
+    type.  No hypothesis on the options (disjunctions included). *)
+Section StmtInv.
+  Variable fa : FreqAlg.
+  Variable cfg : scfg.
+  Let ns := x_ns cfg.
+  Let tau := x_tau cfg.
+
+  Definition ty_ok (p k : str) : Prop := type_ok ns k = true /\ (p = tau -> plain_ok ns k = true).
+
+  Definition cm_dom (k : comment) : Prop :=
+    match k with
+    | KStmt ch _ _ tk _ => if ch then tk = [] else exists ty, type_ok ns ty = true /\ tune_token ns ty = Some tk
+    | KRaw _ => False
+    end.
+
+  Definition st_dom (s : stmt) : Prop :=
+    plain_ok ns (s_prop s) = true /\ s_types s <> [] /\
+    (forall k, In k (s_types s) -> ty_ok (s_prop s) k) /\ Forall cm_dom (s_comments s).
+
+  Lemma s_type_In s : s_types s <> [] -> In (s_type s) (s_types s).
+  Proof. unfold s_type. destruct (s_types s); [congruence | left; reflexivity]. Qed.
+
+  Lemma comment_of_dom x k : st_dom x -> comment_of cfg x = inl k -> cm_dom k.
+  Proof.
+    intros (_ & Hne & Hty & _). unfold comment_of. destruct (s_choice x).
+    - intros H; injection H as <-. reflexivity.
+    - destruct (tune_token (x_ns cfg) (s_type x)) as [tk|] eqn:Et; [|discriminate].
+      intros H; injection H as <-. cbn. exists (s_type x). split; [|exact Et].
+      apply (Hty _ (s_type_In x Hne)).
+  Qed.
+
+  Lemma comments_from_dom g ks : (forall x, In x g -> st_dom x) -> comments_from cfg g ks -> Forall cm_dom ks.
+  Proof.
+    intros Hg Hk. unfold comments_from in Hk. rewrite Forall_forall in *. intros k Hin.
+    destruct (Hk k Hin) as [x [Hx Hc]]. exact (comment_of_dom x k (Hg x Hx) Hc).
+  Qed.
+
+  Lemma st_dom_core r s ks :
+    core_eq r s -> st_dom s -> s_comments r = s_comments s ++ ks -> Forall cm_dom ks -> st_dom r.
+  Proof.
+    intros (_ & C2 & C3 & _) (H1 & H2 & H3 & H4) Hk Hks. unfold st_dom. rewrite C2, C3, Hk.
+    split; [exact H1|]. split; [exact H2|]. split; [exact H3|]. apply Forall_app. auto.
+  Qed.
+
+  Lemma chosen_dom g r : (forall x, In x g -> st_dom x) -> chosen_from cfg g r -> st_dom r.
+  Proof.
+    intros Hg (s & Hs & Hc & ks & Hk & Hf).
+    exact (st_dom_core r s ks Hc (Hg s Hs) Hk (comments_from_dom g ks Hg Hf)).
+  Qed.
+
+  Lemma nonliteral_type_ok : type_ok ns c_NONLITERAL_ELEM_TYPE = true.
+  Proof. reflexivity. Qed.
+
+  Lemma merge_dom p cnt g r :
+    p <> tau -> (forall x, In x g -> st_dom x /\ s_prop x = p) ->
+    merge_group fa cfg cnt g = inl r -> st_dom r.
+  Proof.
+    intros Hp Hg H. apply merge_group_spec in H. destruct H as (d0 & d1 & ks & Hd & Ho & Hc & Hk & Hf).
+    assert (Hg1 : forall x, In x g -> st_dom x) by (intros x Hx; apply (Hg x Hx)).
+    assert (D0 : st_dom d0 /\ s_prop d0 = p).
+    { destruct Hd as [d0 Hin | b i Hb Hi _ _]; [exact (Hg d0 Hin)|].
+      destruct (Hg b Hb) as [(B1 & _) B2]. split; [|exact B2]. unfold st_dom. cbn.
+      split; [exact B1|]. split; [discriminate|]. split; [|constructor].
+      intros k [<-|[]]. split; [exact nonliteral_type_ok|]. rewrite B2. intros E. contradiction. }
+    destruct D0 as [D0 E0].
+    assert (D1 : st_dom d1).
+    { destruct Ho as [|tys Hlen Hin Hall]; [exact D0|]. destruct D0 as (A1 & A2 & A3 & _).
+      unfold st_dom. cbn. split; [exact A1|]. split; [intros E; rewrite E in Hlen; cbn in Hlen; lia|].
+      split; [|constructor]. intros k Hk'. destruct (Hall k Hk') as [->|(x & Hx & _ & _ & ->)].
+      - apply A3. apply s_type_In. exact A2.
+      - destruct (Hg x Hx) as [(_ & X2 & X3 & _) X4]. rewrite E0, <- X4. apply X3. apply s_type_In. exact X2. }
+    exact (st_dom_core r d1 ks Hc D1 Hk (comments_from_dom g ks Hg1 Hf)).
+  Qed.
+
+  Theorem select_valid_dom cnt l out :
+    Forall st_dom l -> select_valid fa cfg cnt l = inl out -> Forall st_dom out.
+  Proof.
+    intros Hok H. rewrite select_valid_eq in H.
+    destruct (group_same fa cfg (List.length l) cnt l) as [l1|e] eqn:E1; [|discriminate].
+    pose proof (group_nodes_spec fa cfg _ cnt l1 out (le_n _) H) as F.
+    rewrite Forall_forall in Hok.
+    assert (P1 : forall r, In r l1 -> st_dom r).
+    { intros r Hr. pose proof (group_same_out fa cfg _ cnt l l1 r (le_n _) E1 Hr) as Hch.
+      apply (chosen_dom _ r) in Hch; [exact Hch|]. intros x Hx. apply filter_In in Hx. apply Hok, Hx. }
+    apply Forall_forall. intros r Hr. destruct (ShexLemmas.Forall2_In_r _ _ _ _ F Hr) as [a [Ha Hp]].
+    apply (node_heads_In cfg) in Ha. unfold node_pick in Hp.
+    destruct (node_pass cfg a) eqn:Epa; [subst r; apply P1, Ha|].
+    assert (Htau : s_prop a <> tau).
+    { unfold node_pass in Epa. apply orb_false_iff in Epa. destruct Epa as [Epa _]. apply str_eqb_neq. exact Epa. }
+    assert (Hg : forall x, In x (node_group cfg l1 a) -> st_dom x /\ s_prop x = s_prop a).
+    { intros x Hx. unfold node_group in Hx. apply filter_In in Hx. destruct Hx as [H1 H2].
+      apply andb_true_iff in H2. destruct H2 as [_ H2]. apply str_eqb_eq in H2. split; [apply P1, H1 | auto]. }
+    destruct (node_group cfg l1 a) as [|x [|y g]] eqn:Eg; [destruct Hp| |].
+    - subst r. apply Hg. left; reflexivity.
+    - exact (merge_dom (s_prop a) cnt _ r Htau Hg Hp).
+  Qed.
+
+  Lemma tune_one_dom cnt s t : st_dom s -> tune_one fa cfg cnt s = inl t -> st_dom t.
+  Proof.
+    intros Hs H. apply tune_one_spec in H. destruct H as [s1 [Hr ->]].
+    assert (D1 : st_dom s1).
+    { destruct Hr as [| |k _ _ Hk]; [exact Hs | exact Hs|].
+      pose proof (comment_of_dom s k Hs Hk) as Hk'. destruct Hs as (A1 & A2 & A3 & A4).
+      unfold st_dom, relaxed. cbn. split; [exact A1|]. split; [exact A2|]. split; [exact A3|].
+      constructor; assumption. }
+    destruct (tune_post_fields cfg s1) as (T1 & _ & T3 & _). unfold sig in T1. injection T1 as _ I2 I3 _ _.
+    destruct D1 as (A1 & A2 & A3 & A4). unfold st_dom. rewrite I2, I3, T3.
+    split; [exact A1|]. split; [exact A2|]. split; [exact A3|].
+    destruct (x_disable_comments cfg); [constructor | exact A4].
+  Qed.
+
+  (** every (property, type key) of an entry the class contributes is in the domain *)
+  Definition entries_dom (ce : str * centry) : Prop :=
+    forall d p k ck n, pd_entry (class_pd cfg ce d) p k ck n -> plain_ok ns p = true /\ ty_ok p k.
+
+  Theorem shex_class_dom thr C ce sh :
+    entries_dom ce -> shex_class fa cfg thr C ce = inl sh -> Forall st_dom (sh_stmts sh).
+  Proof.
+    intros Hok H. destruct (shex_class_unfold fa cfg thr C ce sh H) as (vd & vi & Hd & Hi & Ht & _).
+    set (cnt := cnt_of C (fst ce)) in *.
+    assert (Hb : forall d, Forall st_dom (dirl d (ShexKeys.class_sorted fa cfg thr cnt ce))).
+    { intros d. apply Forall_forall. intros s Hs. apply dirl_In in Hs.
+      destruct Hs as (p & k & ck & n & He & _ & ->). destruct (Hok d p k ck n He) as [Hp Hk].
+      unfold st_dom, base_stmt. cbn. split; [exact Hp|]. split; [discriminate|]. split; [|constructor].
+      intros k0 [<-|[]]. exact Hk. }
+    pose proof (select_valid_dom cnt _ vd (Hb false) Hd) as Vd.
+    pose proof (select_valid_dom cnt _ vi (Hb true) Hi) as Vi.
+    apply tune_spec in Ht. apply Forall_forall. intros t Hin.
+    destruct (ShexLemmas.Forall2_In_r _ _ _ _ Ht Hin) as [s [Hs Hone]]. apply sort_desc_In in Hs.
+    apply (tune_one_dom cnt s t); [|exact Hone]. rewrite Forall_forall in Vd, Vi.
+    apply in_app_or in Hs. destruct Hs as [Hs|Hs]; [apply Vd, Hs | apply Vi, Hs].
+  Qed.
+
+  Theorem shex_dom thr P C shapes :
+    (forall ce, In ce P -> entries_dom ce) -> shex fa cfg thr P C = inl shapes ->
+    forall sh, In sh shapes -> Forall st_dom (sh_stmts sh).
+  Proof.
+    intros Hok H sh Hsh. destruct (shex_unfold fa cfg thr P C shapes H) as [shapes0 [F Hc]].
+    assert (G : forall sh0, In sh0 shapes0 -> Forall st_dom (sh_stmts sh0)).
+    { intros sh0 H0. destruct (ShexLemmas.Forall2_In_r _ _ _ _ F H0) as [ce [Hce Hs]].
+      exact (shex_class_dom thr C ce sh0 (Hok ce Hce) Hs). }
+    destruct (x_remove_empty cfg).
+    - destruct (clean_shapes_sub _ _ _ Hc sh Hsh) as [sh0 [H0 (_ & _ & _ & Hincl)]].
+      specialize (G sh0 H0). rewrite Forall_forall in *. intros t Ht. apply G, Hincl, Ht.
+    - subst shapes0. apply G; exact Hsh.
+  Qed.
+End StmtInv.
